@@ -255,6 +255,42 @@ def do_update_impl(m, meta, st):
         raise RuntimeError('unknown form ' + form)
 
 
+
+def do_bad_update_impl(m, meta, st):
+    """malformed calls: each must be rejected before anything is written"""
+    bad = st['bad']
+    pixels = np.array(st['pixels'], dtype=np.int64)
+    good_vals = _np_values(meta, m.dtype, st['values'])
+    if bad == 'dup_replace':
+        pix2 = np.concatenate([pixels, pixels[:1]])
+        if meta.kind == 'wide':
+            v2 = np.concatenate([good_vals, good_vals[:1]], axis=0)
+        else:
+            v2 = np.concatenate([good_vals, good_vals[:1]])
+        m.update_values_pix(pix2, v2)
+    elif bad == 'bad_len':
+        m.update_values_pix(pixels, np.concatenate([good_vals, good_vals], axis=0)[:len(pixels) + 1 + (len(pixels) == 0)])
+    elif bad == 'bad_dtype':
+        if meta.kind == 'rec':
+            m.update_values_pix(pixels, np.zeros(len(pixels), dtype=[('zz', 'f8')]))
+        elif meta.kind == 'wide':
+            m.update_values_pix(pixels, np.zeros((len(pixels), meta.width), dtype=np.int32))
+        elif meta.kind == 'packed' or m.dtype == np.bool_:
+            m.update_values_pix(pixels, np.zeros(len(pixels), dtype=np.int32))
+        elif np.dtype(m.dtype).kind == 'f':
+            m.update_values_pix(pixels, np.zeros(len(pixels), dtype=np.int64))
+        else:
+            m.update_values_pix(pixels, np.zeros(len(pixels), dtype=np.float64) + 0.5)
+    elif bad == 'bad_op':
+        m.update_values_pix(pixels, good_vals, operation=st['operation'])
+    elif bad == 'none_op':
+        m.update_values_pix(pixels, None, operation=st['operation'])
+    elif bad == 'not_array':
+        m.update_values_pix(pixels, [1, 2, 3][:len(pixels)])
+    else:
+        raise RuntimeError('unknown bad form')
+
+
 def upd_model_op(h, meta, st):
     """explicit per-pixel form of the same update for the model"""
     pixels = [int(p) for p in st['pixels']]
@@ -473,6 +509,14 @@ def exec_step(env, st, i):
             return [(None, lambda res: [dict(step=i, what='update expected to be rejected was accepted',
                                              layer='L0', impl='ok', model='RAISED')])]
         return [(upd_model_op(h, meta, st), expect_ok(i, 'upd'))]
+    if op == 'badupd':
+        h = st['h']
+        try:
+            do_bad_update_impl(env.maps[h], env.meta[h], st)
+        except Exception:  # noqa
+            return []
+        return [(None, lambda res: [dict(step=i, what='malformed update (%s) was accepted' % st['bad'],
+                                         layer='L0', impl='ok', model='RAISED')])]
     if op == 'check':
         return observe(env, st['h'], i, tuple(st.get('what', ('values', 'cov', 'valid', 'nvalid', 'raw', 'layout', 'paths'))))
     raise RuntimeError('unknown step op %r' % op)
